@@ -228,7 +228,7 @@ func structOf(c *Ctx, pkgRel, name string) *types.Struct {
 }
 
 func ruleCapture(c *Ctx) *RuleResult {
-	r := &RuleResult{Rule: "CAPTURE", Doc: "every field of GraphIterator/searchGraph is classified; saved fields flow iterator->record in Save and record->iterator in Load (per DenseGraph field for the graph); derived and cache fields are not written by Load except with nil", MinInst: 25}
+	r := &RuleResult{Rule: "CAPTURE", Doc: "every field of GraphIterator/searchGraph is classified; saved fields flow iterator->record in Save and record->iterator in Load (per DenseGraph field for the graph); derived and cache fields are not written by Load except with nil", MinInst: 12}
 	iterT := structOf(c, "graph/search", "GraphIterator")
 	sgT := structOf(c, "graph/search", "searchGraph")
 	saveT := structOf(c, "graph/search", "save")
@@ -401,7 +401,7 @@ func ruleGobFields(c *Ctx, pkgRel, typ string) *RuleResult {
 func init() {
 	register(&propDef{
 		id:          "C04",
-		explanation: "Decides the structural half of resumability: CAPTURE (each of the 15 GraphIterator and 5 searchGraph fields is classified saved / re-supplied / derived / cache / scratch; an unclassified new field fails; every saved field has a data-flow iterator->record in Save and record->iterator in Load, the graph field by field into the preallocated storage; cache fields are only ever set to nil by Load/WithPruning and are cleared by clearAutomorphismGroup), GOBFIELDS (every field reachable from the record is exported and gob-encodable), PURE (Save writes nothing reachable from the iterator; the loaded iterator reaches neither the reader nor any package-level memory). Does not decide that the resumed sequence equals the remaining sequence.",
+		explanation: "Decides the structural half of resumability: CAPTURE (each of the 15 GraphIterator and 5 searchGraph fields is classified saved / re-supplied / derived / cache / scratch; an unclassified new field fails; every saved field has a data-flow iterator->record in Save and record->iterator in Load, the graph field by field into the preallocated storage; cache fields are only ever set to nil by Load/WithPruning and are cleared by clearAutomorphismGroup), GOBFIELDS (every field reachable from the record is exported and gob-encodable), PURE (Save writes nothing reachable from the iterator; the loaded iterator reaches neither the reader nor any package-level memory), READFULL (the search package never takes data from the reader with a single unretried Read, which may legally come back short). Does not decide that the resumed sequence equals the remaining sequence.",
 		notDecided:  []string{"equality (content and order) of the resumed output with the original's remaining output", "that the scratch/cache classification is semantically right beyond the stated one-line reasons (trusted table in checker/p_c04.go)", "that the restored slices have the right lengths"},
 		assumptions: []string{"encoding/gob round-trips exported fields of the listed kinds faithfully", "field classification table (c04Iter, c04SG) confirmed by reading"},
 		run: func(c *Ctx, tier string) []*RuleResult {
@@ -416,7 +416,7 @@ func init() {
 			gl := ruleGlobalIn(c, "graph/search")
 			gl.Doc = "no function of the search package writes through, or hands out, a package-level variable: two iterators (or a saved record and the iterator it came from) can share nothing behind the caller's back"
 			gl.MinInst = 5
-			return []*RuleResult{ruleCapture(c), ruleGobFields(c, "graph/search", "save"), pure, fw, gl}
+			return []*RuleResult{ruleCapture(c), ruleGobFields(c, "graph/search", "save"), pure, fw, gl, ruleReadFull(c, "graph/search")}
 		},
 		controls: func(ctl *Ctx) []*RuleResult {
 			g := ruleGobFields(ctl, "capctl", "BadRecord")
@@ -434,7 +434,8 @@ func init() {
 			if !hasTransfer(tb, "new(GoodRecord).Path", "it.path") {
 				tr.find("capctl.BadSave:Path not captured", "-", "control: BadSave does not copy it.path")
 			}
-			return []*RuleResult{g, pure, tr}
+			rf := ruleReadFull(ctl, "capctl")
+			return []*RuleResult{g, pure, tr, rf}
 		},
 	})
 }
@@ -446,4 +447,53 @@ func fmtTransfers(ts []transfer) string {
 	}
 	sort.Strings(s)
 	return fmt.Sprint(s)
+}
+
+// ruleReadFull: io.Reader.Read may return fewer bytes than asked for without an error. A direct
+// Read whose block is not on a cycle (no retry loop) therefore reads "the header" only from readers
+// that happen to deliver it in one piece (bytes.Buffer, files), and fails on the rest
+// (network connections, bufio at a buffer boundary, iotest.OneByteReader).
+func ruleReadFull(c *Ctx, pkgRel string) *RuleResult {
+	r := &RuleResult{Rule: "READFULL", Doc: "no single, unretried Read on an io.Reader: a short read is not an error (io.ReadFull or a loop is required)", MinInst: 0}
+	for _, fn := range c.Funcs {
+		p := fnPkg(fn)
+		if p == nil || p.Pkg.Path() != c.Mod+"/"+pkgRel || fn.Synthetic != "" {
+			continue
+		}
+		for _, b := range fn.Blocks {
+			for _, in := range b.Instrs {
+				call, ok := in.(*ssa.Call)
+				if !ok {
+					continue
+				}
+				name := ""
+				var sig *types.Signature
+				if call.Call.IsInvoke() {
+					name = call.Call.Method.Name()
+					sig, _ = call.Call.Method.Type().(*types.Signature)
+				} else if f := call.Call.StaticCallee(); f != nil && f.Signature.Recv() != nil {
+					name = f.Name()
+					sig = f.Signature
+				}
+				if name != "Read" || sig == nil || sig.Params().Len() != 1 || sig.Results().Len() != 2 {
+					continue
+				}
+				if sl, ok := sig.Params().At(0).Type().Underlying().(*types.Slice); !ok || !isByte(sl.Elem()) {
+					continue
+				}
+				r.inst("%s: %s", c.short(fn), instrDesc(c, call))
+				onCycle := false
+				for _, s := range b.Succs {
+					if s == b || reachableBlocks(s, nil)[b] {
+						onCycle = true
+					}
+				}
+				r.oblig(onCycle)
+				if !onCycle {
+					r.find(c.short(fn)+":single Read", c.instrPos(call), "%s reads with one call of Read and no retry loop: Read may deliver fewer bytes than the buffer holds without reporting an error, so the data is only complete for readers that never split it", c.short(fn))
+				}
+			}
+		}
+	}
+	return r
 }
